@@ -8,14 +8,26 @@
 use std::collections::{BTreeMap, BTreeSet, HashMap, HashSet};
 use std::cell::RefCell;
 #[derive(Debug)]
-pub enum GitAiError { Generic(String) }
+pub enum GitAiError { Generic(String), IoError(::std::io::Error) }
+impl From<::std::io::Error> for GitAiError { fn from(e: ::std::io::Error) -> Self { GitAiError::IoError(e) } }
+/// the ORIGINAL text calls `std::fs::remove_file(&log.initial_file)`: inside this driver `std::fs` is the in-memory world
+mod std { pub use ::std::*; pub mod fs {
+    pub fn remove_file(p: &crate::InitPath) -> Result<(), ::std::io::Error> {
+        crate::tick("remove_initial").map_err(|_| ::std::io::Error::other("injected failure"))?;
+        crate::w(|x| { x.journal.push(crate::Eff::RemoveInitial(p.head.clone())); if let Some(l) = x.wls.get_mut(&p.head) { l.initial = None; } });
+        Ok(())
+    }
+} }
+/// `PersistedWorkingLog::initial_file` (a PathBuf in the real code)
+pub struct InitPath { pub head: String }
+impl InitPath { pub fn exists(&self) -> bool { w(|x| x.wls.get(&self.head).map(|l| l.initial.is_some()).unwrap_or(false)) } }
 pub type Files = HashMap<String, Vec<String>>;       // file -> symbolic line attributions
 pub type Prompts = HashMap<String, String>;
 #[derive(Clone, Debug, PartialEq, Default)]
 pub struct Wl { pub initial: Option<(BTreeMap<String, Vec<String>>, BTreeMap<String, String>)>, pub touched: Vec<String>, pub checkpoints: Vec<String> }
 #[derive(Clone, Debug, PartialEq)]
 pub enum Eff {
-    Note(String, String), NoteBatch(Vec<(String, String)>), Initial(String, BTreeMap<String, Vec<String>>, BTreeMap<String, String>), Delete(String), Rename(String, String),
+    Note(String, String), NoteBatch(Vec<(String, String)>), Initial(String, BTreeMap<String, Vec<String>>, BTreeMap<String, String>), Delete(String), RemoveInitial(String), Rename(String, String),
     PostCommit(Option<String>, String, String, bool), RebaseV2(String, Vec<String>, Vec<String>, String), CherryPick(Vec<String>, Vec<String>, String),
 }
 #[derive(Clone, Debug, Default)]
@@ -33,7 +45,7 @@ fn sorted<I: IntoIterator<Item = String>>(i: I) -> Vec<String> { let mut v: Vec<
 
 #[derive(Clone)] pub struct RepoStorage { _o: () }
 #[derive(Clone)] pub struct Repository { pub storage: RepoStorage }
-pub struct PersistedWorkingLog { head: String }
+pub struct PersistedWorkingLog { head: String, pub initial_file: InitPath }
 pub struct InitialAttributions { pub files: Files, pub prompts: Prompts }
 #[derive(Clone, Debug, Default)] pub struct AuthorshipMetadata { pub base_commit_sha: String, pub prompts: BTreeMap<String, PromptRecord> }
 #[derive(Clone, Debug, Default)] pub struct PromptRecord { pub total_additions: u32, pub total_deletions: u32 }
@@ -63,7 +75,7 @@ impl Repository {
 impl RepoStorage {
     pub fn has_working_log(&self, sha: &str) -> bool { w(|x| x.wls.contains_key(sha)) }
     /// like the real one, this CREATES the working-log directory
-    pub fn working_log_for_base_commit(&self, sha: &str) -> PersistedWorkingLog { w(|x| { x.wls.entry(sha.to_string()).or_default(); }); PersistedWorkingLog { head: sha.to_string() } }
+    pub fn working_log_for_base_commit(&self, sha: &str) -> PersistedWorkingLog { w(|x| { x.wls.entry(sha.to_string()).or_default(); }); PersistedWorkingLog { head: sha.to_string(), initial_file: InitPath { head: sha.to_string() } } }
     pub fn rename_working_log(&self, old_sha: &str, new_sha: &str) -> Result<(), GitAiError> {
         tick("rename")?;
         w(|x| { x.journal.push(Eff::Rename(old_sha.into(), new_sha.into())); if x.wls.contains_key(old_sha) && !x.wls.contains_key(new_sha) { let l = x.wls.remove(old_sha).unwrap(); x.wls.insert(new_sha.to_string(), l); } });
@@ -223,7 +235,7 @@ fn expect_amend(c: &mut Ctx, f: &str, input: &str, before: &World, after: &World
     for e in &after.journal { match e {
         Eff::Note(cm, t) => { if cm != a || *t != want_note { c.fail(f, "pre@refs_notes_add#0", input.into(), format!("note for {}: {}", cm, t), format!("only for the amended commit {}: {}", a, want_note)); } }
         Eff::Initial(h, files, _) => { let wf: BTreeMap<String, Vec<String>> = [("rest.txt".to_string(), vec![format!("uncommitted-of-{}", d)])].into_iter().collect(); if h != a || *files != wf { c.fail(f, "pre@write_initial_attributions#0", input.into(), format!("INITIAL of {}: {:?}", h, files), format!("only INITIAL of the amended commit {}: {:?}", a, wf)); } }
-        Eff::Delete(h) => { if h != o { c.fail(f, "pre@delete_working_log_for_base_commit#0", input.into(), format!("deleted working log of {}", h), format!("only the original's ({})", o)); }
+        Eff::Delete(h) => { if h != o || o == a { c.fail(f, "pre@delete_working_log_for_base_commit#0", input.into(), format!("deleted working log of {}", h), format!("only the original's ({}), and never the log of the amended commit ({})", o, a)); }
             else if !after.journal.iter().any(|x| matches!(x, Eff::Note(cm, _) if cm == a)) { c.fail(f, "pre@delete_working_log_for_base_commit#0", input.into(), "working log of the original deleted before the note was written".into(), "note first".into()); } }
         other => c.fail(f, "pre@other", input.into(), format!("{:?}", other), "no such step in an amend".into()),
     } }
@@ -231,6 +243,8 @@ fn expect_amend(c: &mut Ctx, f: &str, input: &str, before: &World, after: &World
         if after.notes.get(a) != Some(&want_note) { c.fail(f, "ensures#0", input.into(), format!("{:?}", after.notes.get(a)), want_note.clone()); }
         if before.split_rest && after.wls.get(a).and_then(|l| l.initial.as_ref()).map(|i| i.0.contains_key("rest.txt")) != Some(true) { c.fail(f, "ensures#0", input.into(), format!("{:?}", after.wls.get(a)), "the uncommitted rest is INITIAL of the amended commit".into()); }
         if o != a && after.wls.contains_key(o) { c.fail(f, "ensures#0", input.into(), "the original's working log is still there".into(), "moved to the amended commit, not copied".into()); }
+        // an amend that reproduced the same commit id: nothing pending may be lost
+        if o == a { if let Some(l) = before.wls.get(o) { if after.wls.get(o).map(|x| &x.checkpoints) != Some(&l.checkpoints) { c.fail(f, "pre@delete_working_log_for_base_commit#0", input.into(), format!("{:?}", after.wls.get(o)), "same commit id: the pending checkpoints stay".into()); } } }
     } else if before.wls.contains_key(o) && !after.wls.contains_key(o) && !(after.notes.get(a) == Some(&want_note)) {
         c.fail(f, "ensures#0", input.into(), "failed, but the original's working log is gone and no note exists".into(), "a failure leaves the pending attribution in place".into());
     }
@@ -244,11 +258,18 @@ fn expect_squash(c: &mut Ctx, f: &str, input: &str, before: &World, after: &Worl
     let wf: BTreeMap<String, Vec<String>> = [("rest.txt".to_string(), vec![format!("uncommitted-of-{}", d)])].into_iter().collect();
     for e in &after.journal { match e {
         Eff::Initial(h, fl, _) => { if h != b || *fl != wf { c.fail(f, "pre@write_initial_attributions#0", input.into(), format!("INITIAL of {}: {:?}", h, fl), format!("INITIAL of the base head {}: {:?}", b, wf)); } }
-        // recorded finding (REPORT.md): the base head's working log is deleted by the dispatch; tolerated here, only the target is checked
-        Eff::Delete(h) if via_dispatch => { if h != b { c.fail(f, "pre@delete_working_log_for_base_commit#0", input.into(), format!("deleted working log of {}", h), format!("at most the base head's ({})", b)); } }
+        // only a stale INITIAL of the base head may be removed (by the dispatch); no working log is ever deleted by a squash
+        Eff::RemoveInitial(h) if via_dispatch => { if h != b { c.fail(f, "pre@opq_remove_initial#0", input.into(), format!("removed INITIAL of {}", h), format!("only the base head's ({})", b)); } }
+        Eff::Delete(h) => c.fail(f, "pre@delete_working_log_for_base_commit#0", input.into(), format!("deleted working log of {}", h), "a squash deletes no working log: pending checkpoints survive".into()),
         other => c.fail(f, "pre@other", input.into(), format!("{:?}", other), "no such step in a squash preparation".into()),
     } }
     if ok && before.split_rest && !files.is_empty() && after.wls.get(b).and_then(|l| l.initial.as_ref()).map(|i| i.0.clone()) != Some(wf.clone()) { c.fail(f, "ensures#0", input.into(), format!("{:?}", after.wls.get(b)), format!("INITIAL of the base head: {:?}", wf)); }
+    if let Some(l) = before.wls.get(b) {
+        // pending checkpoints of the base head survive, whatever happens
+        if after.wls.get(b).map(|x| (&x.checkpoints, &x.touched)) != Some((&l.checkpoints, &l.touched)) { c.fail(f, "pre@delete_working_log_for_base_commit#0", input.into(), format!("{:?}", after.wls.get(b)), format!("the base head's pending checkpoints {:?} survive", l.checkpoints)); }
+        // through the dispatch a stale INITIAL never survives a squash that brings no AI lines (C03)
+        if via_dispatch && ok && l.initial.is_some() && !(before.split_rest && !files.is_empty()) && after.wls.get(b).and_then(|x| x.initial.as_ref()).is_some() { c.fail(f, "ensures#0", input.into(), format!("{:?}", after.wls.get(b)), "the stale INITIAL of the base head is removed".into()); }
+    }
     if after.notes != before.notes { c.fail(f, "pre@other", input.into(), "a note changed".into(), "a squash that is not committed yet writes no note".into()); }
     if after.wls.get(s) != before.wls.get(s) && s != b { c.fail(f, "pre@other", input.into(), "the source head's working log changed".into(), "untouched".into()); }
 }
@@ -316,9 +337,7 @@ fn run_one(c: &mut Ctx, f: &str, v: &[u64]) {
                 0 | 13 => { let want = vec![Eff::PostCommit(if v[0] == 0 { Some(PAR.to_string()) } else { None }, n.clone(), AUTHOR.to_string(), quiet)];
                     if (ok && after.journal != want) || (!ok && !after.journal.is_empty() && after.journal != want) { c.fail(f, "pre@post_commit#0", input, format!("{:?}", after.journal), format!("{:?}", want)); } }
                 1 => expect_amend(c, f, &input, &before, &after, ok, &o, &n),
-                2 => { // the deletion of the base head's log empties it before the preparation: compare against that world
-                    let mut b2 = before.clone(); if after.journal.first() == Some(&Eff::Delete(n.clone())) { b2.wls.remove(&n); }
-                    expect_squash(c, f, &input, &b2, &after, ok, &o, &n, true); }
+                2 => expect_squash(c, f, &input, &before, &after, ok, &o, &n, true),
                 3 => { let mut nc = vs(NC); *nc.last_mut().unwrap() = n.clone(); let want = Eff::RebaseV2(o.clone(), vs(OC), nc, AUTHOR.to_string());
                     if after.journal.first() != Some(&want) && (ok || !after.journal.is_empty()) { c.fail(f, "pre@rewrite_authorship_after_rebase_v2#0", input.clone(), format!("{:?}", after.journal.first()), format!("{:?}", want)); }
                     if after.journal.iter().filter(|e| matches!(e, Eff::RebaseV2(..))).count() > 1 { c.fail(f, "pre@rewrite_authorship_after_rebase_v2#0", input.clone(), "rewritten twice".into(), "once".into()); }
@@ -393,13 +412,9 @@ fn main() {
             let kinds: Vec<u64> = if *f == "rewrite_authorship_if_needed" { (0..15).collect() } else { vec![0] };
             for &k in &kinds { for ow in 0..3 { for nw in 0..3 { for note in 0..3 { for np in 0..3 { for rest in 0..2 { for nd in 0..3 { for mb in 0..2 { for same in 0..2 { for fail in 0..16 {
                 if *f == "rewrite_authorship_if_needed" && fail > 0 && (note == 1 || np == 2 || nd == 1) { continue; }   // thin the failure sweep
-                // RECORDED FINDING 1 (REPORT.md): original == amended loses the INITIAL just written; the contract assumes they differ.
-                // `replay rewrite_authorship_after_commit_amend 0,1,0,0,0,1,0,0,1,0` shows it
-                if same == 1 && (*f == "rewrite_authorship_after_commit_amend" || (*f == "rewrite_authorship_if_needed" && k == 1)) { continue; }
                 run_one(&mut c, f, &[k, ow, nw, note, np, rest, nd, mb, same, fail]);
             } } } } } } } } } }
             for _ in 0..2000 { let mut v: Vec<u64> = vec![g.below(15), g.below(3), g.below(3), g.below(3), g.below(3), g.below(2), g.below(4), g.below(2), g.below(2), g.below(20)];
-                if *f == "rewrite_authorship_after_commit_amend" || (*f == "rewrite_authorship_if_needed" && v[0] == 1) { v[8] = 0; }
                 run_one(&mut c, f, &v); }
         }
         for f in PAIR_FNS { if !want(f) { continue; }
